@@ -89,10 +89,10 @@ CONTRACTS = {
         'assumed': 'degree view of the abstract graph = length of the neighbour list (C16 proves Graph.degree against the representation)',
         'params': {'u': 'int'}, 'raises': {'ValueError': 'not (1 <= u and u <= self.n)'}, 'returns_expr': 'ilen(nbrs(self.gid, u))'},
     (V_, 'EdgeGroup.indices'): {
-        'assumed': 'index enumeration of the edge group (C11): indices(v, None) lists the edges at v as sorted pairs, in neighbour order',
-        'params': {}, 'requires': ['len(pattern) == 2', 'pattern[1] is None', '1 <= pattern[0]', 'pattern[0] <= self.n'],
-        'returns_expr': 'pairsof(lam1(lambda j: zmin(pattern[0], iget(nbrs(self.graph, pattern[0]), j))), '
-                        'lam1(lambda j: zmax(pattern[0], iget(nbrs(self.graph, pattern[0]), j))), ilen(nbrs(self.graph, pattern[0])))'},
+        'assumed': 'index enumeration of the edge group (C11): indices(v, None) and indices(None, v) list the edges at v as sorted pairs, in neighbour order',
+        'params': {}, 'requires': ['len(pattern) == 2', '(pattern[0] is None) != (pattern[1] is None)', '1 <= nonnone(pattern)', 'nonnone(pattern) <= self.n'],
+        'returns_expr': 'pairsof(lam1(lambda j: zmin(nonnone(pattern), iget(nbrs(self.graph, nonnone(pattern)), j))), '
+                        'lam1(lambda j: zmax(nonnone(pattern), iget(nbrs(self.graph, nonnone(pattern)), j))), ilen(nbrs(self.graph, nonnone(pattern))))'},
     (F_, 'FormulaT.cardinality_eq'): {
         'assumed': 'interface meaning of cardinality_eq (proved for both classes: C04)',
         'params': {'lits': 'iseq', 'value': 'int', 'check': 'bool'}, 'ghost_params': {'a': 'asg'},
